@@ -697,6 +697,33 @@ def gen_fn(d, strip_paths, mode="verify", contract_text=None, vacuity=False):
         _lint_ghost_only(s.text, s.where)
         edits.append(Edit(found[k - 1] + 1, "", "\n" + s.text.rstrip() + "\n", "splice:S10"))
 
+    # S11: ghost text right before the K-th `return` statement of the body: `//@@ return K before` (facts the returned
+    # call's precondition needs, where no `let` offers an anchor).  The function must then declare `returns=N`; a
+    # different number of `return`s in the real body loses the anchor -> exit 2.
+    rets = [mm.start() for mm in re.finditer(r"\breturn\b", m[:body_close]) if mm.start() > body_open]
+    declared_returns = d.opt("returns")
+    if declared_returns is not None and int(declared_returns) != len(rets):
+        raise ExtractError("lost anchor: %s has %d return statements, contract file says %s (%s)" % (qual, len(rets), declared_returns, d.where))
+    for s in d.sections:
+        if s.kind != "return":
+            continue
+        try:
+            k, what = int(s.args[0]), s.args[1]
+        except (ValueError, IndexError):
+            raise ExtractError("%s: expected `return K before`" % s.where)
+        if what != "before":
+            raise ExtractError("%s: unknown return section %s" % (s.where, what))
+        if declared_returns is None:
+            raise ExtractError("%s: a return anchor needs returns=N on the fn directive" % s.where)
+        if k < 1 or k > len(rets):
+            raise ExtractError("lost anchor: %s has %d return statements, contract names number %d (%s)" % (qual, len(rets), k, s.where))
+        # only a `return` that is a statement of its own (first token after `{`, `;` or `}`) can take ghost text before it
+        prev = m[:rets[k - 1]].rstrip()
+        if not prev or prev[-1] not in "{;}":
+            raise ExtractError("lost anchor: return %d of %s is not a statement of its own (%s)" % (k, qual, s.where))
+        _lint_ghost_only(s.text, s.where)
+        edits.append(Edit(rets[k - 1], "", s.text.rstrip() + "\n", "splice:S11"))
+
     loops = rs.find_loops(m, body_open, body_close)
     g.loops = len(loops)
     used = set()
